@@ -98,22 +98,26 @@ chk("C19","enum",
 
 # what the seed rounds added to each check (DESIGN.md section 13); appended to the level text
 EXTRA = {
- "C01": " Also from non-initial gateway states: after an earlier legacy tunnel (same or another connection id; left open, closed, dropped) every history up to depth 2/3 on a websocket and a legacy connection, judged by a fresh monitor; a second RDG_IN_DATA with the same id at three points; and the sequence / cookie / capability wiring on the real rdpgw binary.",
- "C02": " Minted lifetime for identities with every expiry; on the real binary the minted token must verify under the configured signing key, claims re-signed under that key are accepted and under the other configured secret refused.",
- "C03": " Plus two-user histories on one gateway process, every schedule (deviation bound 2/3) of two tunnels whose real tokens are verified by the real CheckPAACookie at the same time (identity-provider round trip = scheduling point), and the host policy on the real binary per authentication scheme.",
- "C05": " Two Basic requests in flight at once on the real binary: the authentication backend is gated by the harness, all six orders of {request i reaches the backend, backend answers i} for three pairs of principals; Kerberos positive and negative cases with tickets forged under the gateway's keytab.",
+ "C15": " Two introspection requests at once (two valid tokens; a valid and a foreign-key one; the same refused token twice after a valid one), statement-level points, one deviation, both key modes.",
+ "C12": " Two logins at once then downloads, one file used by two tunnels and two files of one login at once.",
+ "C08": " An outbound channel re-opened inside a packet (4 cut positions) and a client leaving right after its last packets, every schedule up to the bound incl. the choice among ready select clauses.",
+ "C04": " A token of another address next to an own one, two tunnels at once; two downloads at once from different addresses (statement-level points).",
+ "C01": " Also from non-initial gateway states: after an earlier legacy tunnel (same or another connection id; left open, closed, dropped) every history up to depth 2/3 on a websocket and a legacy connection, judged by a fresh monitor; a second RDG_IN_DATA with the same id at three points; and the sequence / cookie / capability wiring on the real rdpgw binary. Pipelining: the canonical history with one extra symbol at every position and every pair after each prefix, sent without waiting for the answers, must give the same answers, connections and relayed bytes. Two websockets presenting one connection identifier: what the second sends unauthorised reaches nobody's host.",
+ "C02": " Minted lifetime for identities with every expiry; on the real binary the minted token must verify under the configured signing key, claims re-signed under that key are accepted and under the other configured secret refused. Two tunnels with real tokens at once (deviation bound 1/2, statement-level points in the security package, the provider's answer a scheduling point): a revoked second token of the same user / of another user next to an honoured one.",
+ "C03": " Plus two-user histories on one gateway process, every schedule (deviation bound 2/3) of two tunnels whose real tokens are verified by the real CheckPAACookie at the same time (identity-provider round trip = scheduling point), and the host policy on the real binary per authentication scheme. Per-user host lists and two websockets with one connection identifier, two tunnels at once with real tokens (statement-level points in security).",
+ "C05": " Two Basic requests in flight at once on the real binary: the authentication backend is gated by the harness, all six orders of {request i reaches the backend, backend answers i} for three pairs of principals; Kerberos positive and negative cases with tickets forged under the gateway's keytab. The same account twice at once (right / wrong password) with the gated backend; a second client while a tunnel of each scheme is open; client-announced user headers; the input list again with the session cookie of a completed OpenID login.",
  "C06": " Also: the client closing the channel while the host streams, and two tunnels whose hosts stream at once (two goroutines building packets).",
- "C07": " Also with real tokens and the real security callbacks, with connections that deliver one write per read, and with a scheduling point between a read's return and the reader's next step (5 kB packets read straight into the reader's buffer).",
+ "C07": " Also with real tokens and the real security callbacks, with connections that deliver one write per read, and with a scheduling point between a read's return and the reader's next step (5 kB packets read straight into the reader's buffer). 17 and 64 tunnels in lockstep with a barrier (one schedule each), a configured idle timeout, a silent accepted legacy client next to a full session.",
  "C09": " Further drivers: connection-file download concurrent with channel creation (D7), two legacy tunnels back to back (D8), two tunnels with real tokens (D9), two browsers downloading from a gateway with an .rdp template (D10); sync.Pool is modelled.",
- "C10": " (g) a tour of the real binary under six authentication configurations: login, download, token introspection, every registered route, and a complete session over websocket and over the legacy transport with the callbacks as main() wires them; (e) every sequence of up to 3 requests x connection ids.",
- "C11": " Also compound endings (outbound connection lost while the host keeps writing, then each ordinary ending on the inbound one), the client going away in the middle of a packet at 6 offsets, descriptor count of the real process around nine tunnels, and a watchdog that reports a goroutine spinning without reaching a scheduling point.",
- "C13": " The same callbacks against the real binary (main()'s provider, verifier and oauth2 wiring) with a loopback IdP: state issued to this / another browser / never x the 11 code behaviours x both session stores.",
- "C14": " Challenges include a zero-length one (what is left of a cleared challenge).",
+ "C10": " (g) a tour of the real binary under six authentication configurations: login, download, token introspection, every registered route, and a complete session over websocket and over the legacy transport with the callbacks as main() wires them; (e) every sequence of up to 3 requests x connection ids. Two writers on one client connection (relay and packet loop) with one/two preemptions, judged for panics; clients falling silent under a configured idle timeout with every timer of the gateway firing (virtual time); headers with bytes that are not UTF-8.",
+ "C11": " Also compound endings (outbound connection lost while the host keeps writing, then each ordinary ending on the inbound one), the client going away in the middle of a packet at 6 offsets, descriptor count of the real process around nine tunnels, and a watchdog that reports a goroutine spinning without reaching a scheduling point. Two tunnels ending together (9 scenarios, deviation bound 1/2); a tunnel ending while 16 / 64 others stay open, observed while they live.",
+ "C13": " The same callbacks against the real binary (main()'s provider, verifier and oauth2 wiring) with a loopback IdP: state issued to this / another browser / never x the 11 code behaviours x both session stores. Two callbacks carrying one state at once (the provider's answer a scheduling point; singleflight modelled).",
+ "C14": " Challenges include a zero-length one (what is left of a cleared challenge). Two sessions served at once: 12 scenarios (both negotiated, one negotiated, fresh service) with statement-level points in cmd/auth/ntlm and at the user database, one deviation.",
  "C16": " Also 38 client capability words in TUNNEL_CREATE, every schedule of a host that talks at once and of a client that closes while the host streams, and the configuration -> wire mapping on the real binary.",
- "C17": " After a mismatch every connection of the tunnel must be closed by the gateway; capability settings on the real binary.",
+ "C17": " After a mismatch every connection of the tunnel must be closed by the gateway; capability settings on the real binary. Two handshakes at once with different versions and offers (8 scenarios, deviation bound 1/2).",
  "C18": " Includes Server.Authentication not configured at all (documented default).",
- "C19": " The output of the previous marshal call must be unchanged after the next one (aliasing).",
- "C20": " Binding: the real binary with a kerberos configuration and scripted KDCs on loopback TCP/UDP sockets (reply over TCP / UDP, silent, refusing, truncating; unknown realm; other methods; malformed bodies).",
+ "C19": " The output of the previous marshal call must be unchanged after the next one (aliasing). Two downloads at once (statement-level points, with and without template), and the first two downloads of a process at once (one process per execution).",
+ "C20": " Binding: the real binary with a kerberos configuration and scripted KDCs on loopback TCP/UDP sockets (reply over TCP / UDP, silent, refusing, truncating; unknown realm; other methods; malformed bodies). Two requests at once (same realm, two realms, parent and child; replying, silent, refusing, half-replying KDCs), every schedule up to the deviation bound: each answered as if alone, a healthy answer never waits for a deadline. Child realm and unconfigured realm below a [domain_realm] suffix.",
 }
 for k, v in EXTRA.items():
     P[k]["text"] += v
@@ -132,7 +136,7 @@ def build():
      "engines":[
        {"name":"vsched","path":"shim/vsched","serves_properties":sorted(P),"kind_free_text":"hand-written controlled scheduler (one thread at a time, hand-off invisible to the race detector) + stateless DFS with preemption / deviation bound, sharded over 16 processes"},
        {"name":"vnet/vsync","path":"shim","serves_properties":sorted(P),"kind_free_text":"in-memory connections, dial table, lock shims whose blocking operations are scheduling points"},
-       {"name":"overlaygen","path":"tools/overlaygen","serves_properties":sorted(P),"kind_free_text":"regenerates a go build overlay from /repo's working tree on every check (net->vnet, sync->vsync, go statements -> vsched.Go, channel ops)"},
+       {"name":"overlaygen","path":"tools/overlaygen","serves_properties":sorted(P),"kind_free_text":"regenerates a go build overlay from /repo's working tree on every check (net->vnet, sync->vsync, time->vtime, go statements -> vsched.Go, channel operations incl. close / range / select -> modelled channels, statement-level points)"},
        {"name":"worker","path":"worker","serves_properties":sorted(P),"kind_free_text":"per-property scenario drivers, reference oracles, independent MS-TSGU codec (internal/tsgu)"},
        {"name":"driver","path":"cmd/verif","serves_properties":sorted(P),"kind_free_text":"rebuilds, shards, merges, matches known_findings.json, replays violations 5x, writes evidence"}],
      "checks":checks,"not_applicable":na,
